@@ -26,7 +26,9 @@
 (* name), MatchByName (calls matched by identifier text), NoUnalias (a use *)
 (* spelled through a type alias is invisible), StopAtReportedCall (the     *)
 (* arguments of a reported call are not visited), SkipMethodNamedLikeFunc  *)
-(* (a method named like a @testonly function is taken for @testonly).     *)
+(* (a method named like a @testonly function is taken for @testonly),     *)
+(* ExportedOnly (methods of unexported types do not cross packages),       *)
+(* GroupDocLeaks (the doc of a spec reaches the next spec of its group).   *)
 (***************************************************************************)
 EXTENDS Integers, Sequences, FiniteSets, TLC, Json
 
@@ -37,7 +39,9 @@ VARIABLES prog, fi, ci, ph, skip, reported, diags
 vars == <<prog, fi, ci, ph, skip, reported, diags>>
 
 Ctxs == {"plain", "tofunc", "pmeth", "tometh", "decl", "pmethTF"}   \* pmethTF: an ordinary method that is merely named TF, like the @testonly function
-Uses == {"callF", "callM", "callMvar", "callPF", "callPM", "shadow", "callFlit",   \* callFlit: d.TF(d.TT{..}.X) - a @testonly literal inside a @testonly call
+Uses == {"callF", "callM", "callMvar", "callHM", "litTG", "callPF", "callPM", "shadow", "callFlit",
+         \* callHM: d.Default.HTM() - HTM is a @testonly method (iff ann.meth) of the unexported type hid;
+         \* litTG: a literal of d.TG, the undocumented spec that follows the annotated TT inside one `type ( ... )` group   \* callFlit: d.TF(d.TT{..}.X) - a @testonly literal inside a @testonly call
          "litTT", "varTT", "varPtrTT", "fieldTT", "paramTT", "resultTT", "litTT2", "litOTT"}
 TypeUses == {"litTT", "varTT", "varPtrTT", "fieldTT", "paramTT", "resultTT", "litTT2", "litOTT"}
 IsTypeUse(u) == u \in TypeUses \/ u = "callFlit"
@@ -56,14 +60,14 @@ Valid(c, pkg) ==
   /\ (c.use = "litOTT" => pkg = "u")
 
 \* the defined type a use refers to, as <<package, name>>
-TypeOf(u) == CASE u = "litTT2" -> <<"d", "TT2">> [] u = "litOTT" -> <<"o", "TT">> [] OTHER -> <<"d", "TT">>
+TypeOf(u) == CASE u = "litTT2" -> <<"d", "TT2">> [] u = "litOTT" -> <<"o", "TT">> [] u = "litTG" -> <<"d", "TG">> [] OTHER -> <<"d", "TT">>
 
 InTestCtx(f, c) == f.test \/ c.ctx \in {"tofunc", "tometh"}
 
 \* candidate code of a use, before the once-per-file rule
 Cands(c, ann) ==
   (IF c.use \in {"callF", "callFlit"} /\ ann.func THEN {"TONL02"} ELSE {})
-  \cup (IF c.use \in {"callM", "callMvar"} /\ ann.meth THEN {"TONL03"} ELSE {})
+  \cup (IF c.use \in {"callM", "callMvar", "callHM"} /\ ann.meth THEN {"TONL03"} ELSE {})
   \cup (IF (c.use \in TypeUses \/ c.use = "callFlit") /\ (ann.type \/ c.use = "litOTT") THEN {"TONL01"} ELSE {})   \* o.TT is always annotated
 
 (***************************************************************************)
@@ -84,7 +88,7 @@ L1(p) == {<<k[1], k[2], code>> : k \in Keys(p), code \in {"TONL01", "TONL02", "T
 (***************************************************************************)
 (* Program spaces                                                          *)
 (***************************************************************************)
-SeqUses == {"litTT", "varTT", "litTT2", "litOTT", "paramTT", "callF", "callMvar", "callFlit"}
+SeqUses == {"litTT", "varTT", "litTT2", "litOTT", "paramTT", "callF", "callMvar", "callFlit", "litTG"}
 SeqConts(pkg) == {c \in {Cont(x, u) : x \in {"plain", "tofunc"}, u \in SeqUses} : Valid(c, pkg)}
 
 InitProg ==
@@ -139,6 +143,8 @@ Key(u) == IF "DedupByName" \in Deviations THEN TypeOf(u)[2] ELSE TypeOf(u)
 VisitCodes(c) ==
   LET cs == IF c.use = "shadow" /\ "MatchByName" \in Deviations /\ prog.ann.func THEN {"TONL02"}
             ELSE IF "NoUnalias" \in Deviations /\ c.sp \in {"alias", "alias3", "chain", "ptralias", "ptrchain", "ptrofalias"} THEN {}
+            ELSE IF "ExportedOnly" \in Deviations /\ c.use = "callHM" /\ prog.pkg # "d" THEN {}
+            ELSE IF "GroupDocLeaks" \in Deviations /\ c.use = "litTG" /\ prog.ann.type THEN {"TONL01"}
             ELSE Cands(c, prog.ann)
   IN IF "StopAtReportedCall" \in Deviations /\ "TONL02" \in cs THEN {"TONL02"} ELSE cs     \* the arguments of a reported call are not visited
 
